@@ -145,6 +145,27 @@ Proof.
   - unfold max_steps at 2. simpl. reflexivity.
 Qed.
 
+(* several call options (round 5: the harness hands over lists of options): the last positive one counts, a
+   non-positive one changes nothing; [last_positive opts 0] is what Corr/C01.v ([mk_ccase]) hands to [with_rtmax] *)
+Lemma last_positive_default : forall opts d,
+  last_positive opts d = match last_positive opts 0 with O => d | S m => S m end.
+Proof.
+  unfold last_positive. intros opts; induction opts as [|o opts IH]; intros d; simpl; [reflexivity|].
+  destruct o as [|o]; [apply IH|]. change (Nat.ltb 0 (S o)) with true. cbv iota.
+  rewrite (IH (S o)). destruct (fold_left _ opts 0%nat); reflexivity.
+Qed.
+
+Theorem runtime_limits_are_gen : forall err_code g opts, g_mode g = Pregel ->
+  Gen.RunLimit.run_max_steps err_code (is_dag g) (max_steps g) opts
+  = Ok (max_steps (rt_graph (last_positive opts 0) g)).
+Proof.
+  intros ec g opts Hm. rewrite gen_run_max_steps_agrees. unfold Model.RunLimitTable.run_max_steps, is_dag. rewrite Hm.
+  rewrite last_positive_default. pose proof (max_steps_pos g) as Hp.
+  unfold rt_graph. destruct (last_positive opts 0) as [|m].
+  - destruct (Nat.ltb (max_steps g) 1) eqn:E; [apply Nat.ltb_lt in E; lia|reflexivity].
+  - rewrite Hm. reflexivity.
+Qed.
+
 (* without call options the limit is the compile-time one *)
 Theorem no_option_limit_is_gen : forall err_code g, g_mode g = Pregel ->
   Gen.RunLimit.run_max_steps err_code (is_dag g) (max_steps g) [] = Ok (max_steps g).
